@@ -34,9 +34,13 @@ class InjectedOSError(InjectedFault, OSError):
     pass
 
 
+class InjectedIndexError(InjectedFault, IndexError):
+    pass
+
+
 # what a user's container or callback may raise: the type must not matter to how the failure is reported
 FAULT_TYPES = {"plain": InjectedFault, "zerodiv": InjectedZeroDivisionError, "key": InjectedKeyError,
-               "value": InjectedValueError, "type": InjectedTypeError, "os": InjectedOSError}
+               "value": InjectedValueError, "type": InjectedTypeError, "os": InjectedOSError, "index": InjectedIndexError}
 
 
 class SimStall(Exception):
@@ -126,8 +130,17 @@ def _rebuild_list(l, sid):
     return o
 
 
+_PRIVATE = ("_sid", "_items")
+
+
+def _is_data_attr(name):
+    """data attributes of a SimObj: everything except its two private names and dunder names (a data attribute may
+    well start with a single underscore)"""
+    return name not in _PRIVATE and not name.startswith("__")
+
+
 class SimObj:
-    """Attribute container.  Public attributes are data; `_sid` is the serial."""
+    """Attribute container.  Attributes are data; `_sid` (serial number) and `_items` are its own."""
 
     def __init__(self, **kw):
         object.__setattr__(self, "_sid", new_sid())
@@ -135,18 +148,18 @@ class SimObj:
             object.__setattr__(self, k, v)
 
     def __getattribute__(self, name):
-        if name[0] != "_":
+        if _is_data_attr(name):
             _event("r", object.__getattribute__(self, "_sid"), name)
         return object.__getattribute__(self, name)
 
     def __setattr__(self, name, v):
-        if name[0] != "_":
+        if _is_data_attr(name):
             _event("w", object.__getattribute__(self, "_sid"), name)
         object.__setattr__(self, name, v)
 
     def _items(self):
         d = object.__getattribute__(self, "__dict__")
-        return [(k, v) for k, v in d.items() if k[0] != "_"]
+        return [(k, v) for k, v in d.items() if _is_data_attr(k)]
 
     def __reduce__(self):
         return (_rebuild_obj, (dict(self._items()), object.__getattribute__(self, "_sid")))
